@@ -18,4 +18,16 @@ class TagX(fdl.Tag):
   """tag x"""
 
 
-ALL = {'TagA': TagA, 'TagB': TagB, 'TagC': TagC, 'TagX': TagX}
+class NsA:
+
+  class Same(fdl.Tag):
+    """tag NsA.Same"""
+
+
+class NsB:
+
+  class Same(fdl.Tag):
+    """tag NsB.Same (same __name__ as NsA.Same, unrelated)"""
+
+
+ALL = {'TagA': TagA, 'TagB': TagB, 'TagC': TagC, 'TagX': TagX, 'SameA': NsA.Same, 'SameB': NsB.Same}
